@@ -170,7 +170,10 @@ def run_multi(cfg, tier):
                 tally.discharged += 1
                 tally.reach = True
                 continue
-            tally.decide(e, sneg, on_sat=lambda m: cexm(cfg, None), label=f"multi-setup nref={nref} nmov={nmov} br={br} [{k}]", timeout_ms=60000)
+            # hints: a failing polynomial identity fails at almost every point - a cheap substitution search finds the model
+            # before the non-linear engine is asked (which can use its whole budget on satisfiable instances)
+            tally.decide(e, sneg, on_sat=lambda m: cexm(cfg, None), label=f"multi-setup nref={nref} nmov={nmov} br={br} [{k}]", timeout_ms=60000,
+                         hints=True)
             if tally.stop:
                 break
     return tally.result(ex)
